@@ -1,0 +1,73 @@
+package htmldoc
+
+import (
+	"bytes"
+	"fmt"
+	"io"
+
+	"golang.org/x/net/html"
+)
+
+// MaxNestingDepth is the deepest nesting of elements that is parsed. The tree
+// builder and the extraction both walk the stack of open elements for every
+// tag, so that their work grows with the square of the depth; browsers cap the
+// depth of the tree at the same value.
+const MaxNestingDepth = 512
+
+// voidElements never have content; elements in impliedEndElements are closed
+// by a following sibling or by their parent's end, so a run of them does not
+// nest.
+var voidElements = map[string]bool{
+	"area": true, "base": true, "br": true, "col": true, "embed": true, "hr": true, "img": true,
+	"input": true, "link": true, "meta": true, "param": true, "source": true, "track": true, "wbr": true,
+}
+
+var impliedEndElements = map[string]bool{
+	"p": true, "li": true, "dt": true, "dd": true, "rt": true, "rp": true, "optgroup": true, "option": true,
+	"thead": true, "tbody": true, "tfoot": true, "tr": true, "td": true, "th": true, "colgroup": true,
+	"caption": true, "html": true, "head": true, "body": true,
+}
+
+// ParseBounded parses an HTML document after checking, in one pass over its
+// tags, that its elements are not nested deeper than MaxNestingDepth.
+func ParseBounded(r io.Reader) (*html.Node, error) {
+	data, err := io.ReadAll(r)
+	if err != nil {
+		return nil, err
+	}
+	if err := checkNestingDepth(data); err != nil {
+		return nil, err
+	}
+	return html.Parse(bytes.NewReader(data))
+}
+
+func checkNestingDepth(data []byte) error {
+	z := html.NewTokenizer(bytes.NewReader(data))
+	var open []string
+	for {
+		switch z.Next() {
+		case html.ErrorToken:
+			return nil // end of input (or a read error, which the parser reports)
+		case html.StartTagToken:
+			nameBytes, _ := z.TagName()
+			name := string(nameBytes)
+			if voidElements[name] || impliedEndElements[name] {
+				continue
+			}
+			open = append(open, name)
+			if len(open) > MaxNestingDepth {
+				return fmt.Errorf("elements nested deeper than %d", MaxNestingDepth)
+			}
+		case html.EndTagToken:
+			nameBytes, _ := z.TagName()
+			name := string(nameBytes)
+			// Close up to the nearest open element of that name, as the tree builder does
+			for i := len(open) - 1; i >= 0; i-- {
+				if open[i] == name {
+					open = open[:i]
+					break
+				}
+			}
+		}
+	}
+}
